@@ -402,9 +402,32 @@ class Sched:
         return ('D', 'opaque', cond, tuple(vals))
 
 
+def _reclassify(c, vals):
+    """a test on a bool the caller computed and handed in (a parameter, a field of a small options struct, a captured local): once the
+    argument is known it may be a flag / comparison test after all"""
+    c0 = c
+    vals_t = tuple(vals)
+    truth = False if vals_t == (0,) else True if vals_t in ((1,), ('otherwise',)) else None
+    neg = False
+    while c[0] == 'un' and c[1] == 'Not':
+        c, neg = c[2], not neg
+    if truth is not None:
+        tr = truth != neg
+        if c[0] == 'bin' and c[1] in ('Ne', 'Eq') and c[2][0] == 'bin' and c[2][1] == 'BitAnd' and q.const_val(c[3]) is not None \
+                and q.const_val(c[2][3]) is not None:
+            mask, cmpv = q.const_val(c[2][3]), q.const_val(c[3])
+            is_set = tr if (c[1] == 'Ne' and cmpv == 0) or (c[1] == 'Eq' and cmpv == mask) else (not tr)
+            return ('D', 'flag', c[2][2], mask, is_set)
+        if c[0] == 'bin' and c[1] in ('Eq', 'Ne', 'Lt', 'Le', 'Gt', 'Ge') and q.const_val(c[3]) is not None:
+            return ('D', 'cmp', c[1], c[2], q.const_val(c[3]), tr)
+    return ('D', 'opaque', c0, vals)
+
+
 def _subst_item(x, env):
     if x[0] == 'R':
         return x[:5] + (subst(x[5], env) if x[5] is not None else None,) + x[6:]
+    if x[0] == 'D' and x[1] == 'opaque':
+        return _reclassify(subst(x[2], env), x[3])
     return tuple(subst(e, env) if isinstance(e, tuple) and e and isinstance(e[0], str) and _is_term(e) else e for e in x)
 
 
@@ -417,6 +440,8 @@ def _subst_closure_item(x, cl):
     from terms import subst_closure
     if x[0] == 'R':
         return x[:5] + (subst_closure(x[5], {}, cl) if x[5] is not None else None,) + x[6:]
+    if x[0] == 'D' and x[1] == 'opaque':
+        return _reclassify(subst_closure(x[2], {}, cl), x[3])
     return tuple(subst_closure(e, {}, cl) if isinstance(e, tuple) and e and isinstance(e[0], str) and _is_term(e) else e for e in x)
 
 
